@@ -23,6 +23,8 @@ IntCalls(s) ==
     {[op |-> "push", v |-> v] : v \in (IF k < MaxItems THEN ValuesFor(w) ELSE {})}
     \cup {[op |-> "pop"], [op |-> "clear"], [op |-> "reserve", n |-> 5], [op |-> "pack"], [op |-> "count_ones"], [op |-> "len"], [op |-> "width"]}
     \cup {[op |-> "get", i |-> i] : i \in 0..(k - 1)}
+    \cup {[op |-> "get_or", i |-> i, v |-> {0, 63}] : i \in {0, k - 1, k, k + 1, -1} \cap (0..(k + 1) \cup {-1})}
+    \cup {[op |-> "is_empty"]}
     \cup {[op |-> "set", i |-> i, v |-> v] : i \in {0, k - 1} \cap 0..(k - 1), v \in {All64, {w - 1}, {}}}
     \cup {[op |-> "resize", n |-> n, v |-> v] : n \in {0, k - 1, k + 1, k + 2} \cap 0..MaxItems, v \in Fills(w)}
     \cup {[op |-> "extend", vs |-> vs] : vs \in (IF k + 2 <= MaxItems THEN {<<All64, {0}>>, <<{w - 1}, {}>>} ELSE {})}
@@ -49,6 +51,9 @@ Init ==
     /\ IF Kind = "int"
        THEN \E w \in Widths :
               \/ init = [c |-> [op |-> "new", w |-> w], obs |-> Obs(NewInt(w))] /\ st = NewInt(w)
+              \/ /\ w \in {8, 16, 32, 64}
+                 /\ \E vs \in {<< >>, <<(0..(w - 1))>>, <<{0}, {w - 1}, {}>>} : \E how \in {"from_vec", "from_iter"} :
+                      init = [c |-> [op |-> how, w |-> w, vs |-> vs], obs |-> Obs(FromItems(w, vs))] /\ st = FromItems(w, vs)
               \/ \E n \in {1, 3} : \E v \in {All64, {0, w - 1}} :
                    init = [c |-> [op |-> "with_len", n |-> n, w |-> w, v |-> v], obs |-> Obs(WithLenInt(n, w, v))] /\ st = WithLenInt(n, w, v)
        ELSE \/ init = [c |-> [op |-> "new_raw"], obs |-> Obs(NewRaw)] /\ st = NewRaw
